@@ -306,7 +306,12 @@ impl<'a> CompilerState<'a> {
         let varname = px.as_str();
         let subscript = match p.next() {
             Some(pair) => {
+                let start = pair.as_span().start();
                 let expr = self.parse_expr_ex(pair.into_inner())?;
+                if !expr.1.is_empty() {
+                    // The literals met here would never be declared
+                    return Err(self.syntax_error("String literal not allowed in a subscript", start));
+                }
                 Box::new(expr.0)
             }
             None => Box::new(Expr::Nothing),
